@@ -77,7 +77,19 @@ VALUES = [
     "ValueError('bad')", "KeyError('k')", 'Point(1, 2)', 'Point(1, 3)', 'Plain(1)', 'Plain(2)',
     'shared_list', 'other_list', 'int', 'str', 'float', 'list', 'Point', 'bool', 'tuple',
     "'^a.c$'", "'[0-9]+'", "'('", 'range(3)', "b'ab'", '2 ** 70', '1e300', "float('nan')", "float('inf')",
+    # the documented tolerance is absolute (.001): large magnitudes, where a relative tolerance would be far wider
+    '2000000.0', '2000000.0004', '2000000.0015', '123456.789', '123456.7905', '1e9', '1e9 + 0.5', '[2000000.0015]', "{'k': 2000000.0}",
+    '{1.0, 1.0004}', '{1.0, 2.0}', '{1.0004, 2.0}', '[{1.0, 2.0}]',
 ]
+# pairs straddling the tolerance, always driven (quick samples the full product above)
+BOUNDARY_PAIRS = [('1.0', '1.0004'), ('1.0', '1.002'), ('1.0004', '0.9996'), ('2000000.0', '2000000.0004'), ('2000000.0', '2000000.0015'),
+                  ('123456.789', '123456.7905'), ('1e9', '1e9 + 0.5'), ('[2000000.0015]', '[2000000.0]'), ("{'k': 2000000.0}", "{'k': 2000000.0015}"),
+                  ('(1, 2000000.0015)', '(1, 2000000.0)'), ('0', '0.0004'), ('0', '0.002'), ('-0.0', '0.0009'), ('2 ** 70', '2.0 ** 70 + 4096'),
+                  ('1e300', '1.0000001e300'), ('3', '3.0004'), ('3', '3.002'),
+                  ('{1.0, 1.0004}', '{1.0, 2.0}'), ('{1.0004, 2.0}', '{1.0, 2.0}'), ('[{1.0, 1.0004}]', '[{1.0, 2.0}]'), ('{1.0, 1.0004, 3.0}', '{1.0, 2.0, 3.0}'),
+                  ('{1.0: 1, 1.0004: 2}', '{1.0: 1, 2.0: 2}')]
+BOUNDARY_ASSERTIONS = ['assert_equal', 'assert_not_equal', 'assert_in', 'assert_not_in', 'assert_contains_subset', 'assert_not_contains_subset',
+                       'assert_almost_equal', 'assert_not_almost_equal', 'assert_less', 'assert_greater_equal', 'assert_less_equal', 'assert_greater']
 ERROR_OPERAND = '<error-result-of-failing-call>'
 
 BINARY = ['assert_equal', 'assert_not_equal', 'assert_less', 'assert_less_equal', 'assert_greater', 'assert_greater_equal',
@@ -620,6 +632,18 @@ def run(ctx):
             ctx.count('cells_not_reached_budget')
             break
         r = check_cell(ctx, h, name, a, b)
+        if r is not None:
+            check_negation(ctx, h, name, a, b, r[0], r[1])
+            if name == 'assert_equal':
+                check_symmetry(ctx, h, a, b)
+    focus = [(n, x, y) for n in BOUNDARY_ASSERTIONS for a, b in BOUNDARY_PAIRS for x, y in ((a, b), (b, a))]
+    for name, a, b in focus[ctx.shard::ctx.nshards]:
+        if name in ('assert_in', 'assert_not_in', 'assert_contains_subset', 'assert_not_contains_subset'):
+            b = '[%s, 5]' % b         # membership: the needle against a container holding the near value
+            if 'subset' in name:
+                a = '[%s]' % a
+        r = check_cell(ctx, h, name, a, b)
+        ctx.count('tolerance_boundary_cells')
         if r is not None:
             check_negation(ctx, h, name, a, b, r[0], r[1])
             if name == 'assert_equal':
